@@ -158,87 +158,127 @@ def run(ctx):
     trues = [(p, v) for p, v in leaves if const_int(v) == 1]
     falses = [(p, v) for p, v in leaves if const_int(v) == 0]
     other = [(p, v) for p, v in leaves if const_int(v) not in (0, 1)]
-    run.inst("C08.K2", "flag-sources", len(trues) >= 1 and len(falses) >= 2 and not other,
-             "all-siblings flag takes constants only: %d true source(s), %d false source(s), %d other" % (len(trues), len(falses), len(other)), where(pp.span))
-    # the verification loop
+    all_like = [v for p_, v in other if v[0] == "call" and isinstance(v[1], str) and v[1].endswith("::all")]
+    run.inst("C08.K2", "flag-sources", (len(trues) >= 1 and len(falses) >= 2 and not other) or (len(all_like) == len(other) and len(other) == 1 and len(falses) >= 1),
+             "all-siblings flag: %d true constant(s), %d false constant(s), %d other source(s)%s" % (len(trues), len(falses), len(other), " (the all() over the run)" if all_like else ""), where(pp.span))
+    # the verification of the run: for every j in 1..E, current[i+j] == cell + j*stride.  It may be a loop over 1..E (for or
+    # while), a loop over 1..E zipped with the sub-slice current[i+1..i+E], or Iterator::all over such a sequence; all are
+    # read through "the k-th item of the sequence" (query.seq_nth), so j = 1 + k in every spelling.
+    from ..query import seq_nth, subst_terms, KSYM, closure_subst, closures_of, closure_sites
+
+    def unopt(z):
+        z = peel(z)
+        if z[0] == "agg" and isinstance(z[2], str) and z[2].endswith("::Some") and len(z[3]) == 1:
+            return z[3][0]
+        if z[0] == "call" and isinstance(z[1], str) and z[1].endswith("::checked_add") and len(z[2]) == 2:
+            return ("bin", "Add", z[2][0], z[2][1])
+        return None
+
+    def as_equality(d):
+        if d[0] == "bin" and d[1] in ("Ne", "Eq"):
+            return d[1], d[2], d[3]
+        if d[0] == "call" and isinstance(d[1], str) and (d[1].endswith("::ne") or d[1].endswith("::eq")) and len(d[2]) == 2:
+            ux, uy = unopt(d[2][0]), unopt(d[2][1])
+            if ux is not None and uy is not None:
+                return ("Ne" if d[1].endswith("::ne") else "Eq"), ux, uy
+        return None
+
     inner = [l for l in lps if l.head != outer_head and (l.next or l.counter) and l.source is not None and l.body < outer.body and not any(l.body < m.body < outer.body for m in lps if (m.next or m.counter))]
-    ver = None
+    ver = None      # (kind, gate block, mapping item -> k-th item, count term, equality (op, lhs, rhs), loop or None)
     for l in inner:
-        src = peel(l.source)
-        while src[0] == "call" and src[1].endswith("::into_iter"):
-            src = peel(src[2][0])
-        if src[0] == "agg" and "Range" in src[2] and const_int(src[3][0]) == 1:
-            ver = (l, src[3][1])
+        r = seq_nth(ft, l.source)
+        if r is None or r[1] is None:
+            continue
+        eqs = []
+        for b in l.own:
+            if ft.blocks[b]["term"]["k"] == "switch":
+                e_ = as_equality(ft.switch_term(b))
+                if e_ is not None:
+                    eqs.append(e_)
+        if len(eqs) == 1:
+            ver = ("loop", l.head, {strip_site(l.item): r[0]}, r[1], eqs[0], l)
+    all_call = None
     if ver is None:
-        run.bad("C08.K2", "sibling-loop", "no loop over j in 1..E found - unrecognised idiom, cannot decide", w)
+        for c_ in ft.calls():
+            if c_.callee and c_.callee.endswith("::all") and len(c_.args) == 2 and c_.block in outer.body:
+                r = seq_nth(ft, c_.args[0])
+                clos = peel(c_.args[1])
+                if r is None or r[1] is None or clos[0] != "agg" or clos[1] != "closure":
+                    continue
+                fcl = fn_terms(facts, clos[2])
+                rts = [closure_subst(facts, clos[2], fcl.return_term(rb)) for rb in fcl.return_blocks()]
+                if len(rts) != 1 or rts[0] is None:
+                    continue
+                e_ = as_equality(rts[0])
+                if e_ is not None and e_[0] == "Eq":
+                    ver = ("all", c_.block, {("param", 2): r[0]}, r[1], e_, None)
+                    all_call = c_
+    if ver is None:
+        run.bad("C08.K2", "sibling-loop", "no verification of the siblings j in 1..E found (loop or Iterator::all over 1..E) - unrecognised idiom, cannot decide", w)
         return
-    vl, E = ver
-    # first-child gate dominates the loop
-    gate = [(d, vals, other, excl) for d, vals, other, excl, _b in ft.conditions(vl.head) if d[0] == "call" and d[1] == FIRSTCH]
+    kind, gate_block, mapping, count, (eop, lhs, rhs), vl = ver
+    # flag sources: constants, or (for the all-form) the result of that all() call
+    if kind == "all":
+        other2 = [(p_, v) for p_, v in other if not (v[0] == "call" and len(v) > 3 and v[3] == (ft.path, all_call.block))]
+        direct = fl[0] == "call" and len(fl) > 3 and fl[3] == (ft.path, all_call.block)
+        run.inst("C08.K2", "flag-is-all-result", (not other2 and len(other) >= 1) or direct,
+                 "the all-siblings condition is false or the result of the all() over the run", where(all_call.span))
+    # E: the run length, count = E - 1
+    cco, ck = linear(count)
+    cco = {a: c for a, c in cco.items() if c != 0}
+    e_atoms = [a for a, c in cco.items() if c == 1]
+    E = None
+    if ck == -1 and len(cco) == 1 and len(e_atoms) == 1:
+        E = e_atoms[0]
+    run.inst("C08.K2", "sibling-loop", E is not None, "the run is verified for j in 1..E: number of checked siblings = %s" % fmt(count), w)
+    if E is None:
+        return
+    # first-child gate dominates the verification
+    gate = [(d, vals, other_, excl) for d, vals, other_, excl, _b in ft.conditions(gate_block) if d[0] == "call" and d[1] == FIRSTCH]
     okgate = len(gate) == 1 and ((gate[0][2] and 0 in gate[0][3]) or (gate[0][1] and 0 not in gate[0][1]))
     if okgate:
         a0 = gate[0][0][2][0]
         okgate = canon(strip_site(a0)) == canon(strip_site(cell))
-    run.inst("C08.K2", "first-child-gate", okgate, "sibling loop entered only when is_first_child(%s, ..) holds" % (fmt(gate[0][0][2][0]) if gate else "?"), w)
-    # the comparison in the loop
-    cmpb = None
-    for b in vl.own:
-        tm = ft.blocks[b]["term"]
-        if tm["k"] == "switch":
-            d = ft.switch_term(b)
-            if d[0] == "bin" and d[1] in ("Ne", "Eq"):
-                cmpb = (b, d)
-            elif d[0] == "call" and isinstance(d[1], str) and (d[1].endswith("::ne") or d[1].endswith("::eq")) and len(d[2]) == 2:
-                # Option-valued comparison: Some(current[i+j]) vs cell.checked_add(j*stride)
-                x, y = peel(d[2][0]), peel(d[2][1])
-
-                def unopt(z):
-                    if z[0] == "agg" and z[2].endswith("::Some") and len(z[3]) == 1:
-                        return z[3][0]
-                    if z[0] == "call" and isinstance(z[1], str) and z[1].endswith("::checked_add") and len(z[2]) == 2:
-                        return ("bin", "Add", z[2][0], z[2][1])
-                    return None
-                ux, uy = unopt(x), unopt(y)
-                if ux is not None and uy is not None:
-                    cmpb = (b, ("bin", "Ne" if d[1].endswith("::ne") else "Eq", ux, uy))
-    if cmpb is None:
-        run.bad("C08.K2", "sibling-compare", "no equality test in the sibling loop", w)
-        return
-    b, d = cmpb
-    lhs, rhs = d[2], d[3]
-    if elem(lhs) is None:
+    run.inst("C08.K2", "first-child-gate", okgate, "siblings are compared only when is_first_child(%s, ..) holds" % (fmt(gate[0][0][2][0]) if gate else "?"), w)
+    # the comparison, with the loop item / closure parameter replaced by the k-th item of the sequence
+    lhs, rhs = canon(subst_terms(strip_site(lhs), mapping)), canon(subst_terms(strip_site(rhs), mapping))
+    if not (lhs[0] == "elem"):
         lhs, rhs = rhs, lhs
+    whyc = "compares %s with %s" % (fmt(lhs)[:90], fmt(rhs)[:140])
     okidx = False
-    whyc = "compares %s with %s" % (fmt(lhs), fmt(rhs))
-    j = strip_site(vl.item)
-    el = elem(lhs)
-    if el is not None and strip_site(el[0]) == strip_site(cur):
-        ico, ik = linear(el[1])
-        okidx = ik == 0 and ico == {strip_site(cursor): 1, j: 1}
+    if lhs[0] == "elem" and lhs[1] == canon(strip_site(cur)):
+        ico, ik = linear(lhs[2])
+        ico = {a: c for a, c in ico.items() if c != 0}
+        okidx = ik == 1 and ico == {strip_site(cursor): 1, KSYM: 1}
     rco, rk = linear(rhs)
-    rco = {canon(a): c for a, c in rco.items()}
+    rco = {canon(a): c for a, c in rco.items() if c != 0}
     stride_atoms = [a for a in rco if a[0] == "bin" and a[1] == "Mul"]
     okval = rk == 0 and rco.get(canon(strip_site(cell))) == 1 and len(rco) == 2 and len(stride_atoms) == 1
     if okval:
         m = stride_atoms[0]
         fac = [m[2], m[3]]
-        jj = [x for x in fac if any(strip_site(y) == j for y in walk(x))]
         st = [x for x in fac if x[0] == "call" and x[1] == STRIDE]
+        jj = [x for x in fac if not (x[0] == "call" and x[1] == STRIDE)]
         okval = len(jj) == 1 and len(st) == 1
         if okval:
+            jt = jj[0]
+            while jt[0] == "cast":
+                jt = jt[2]
+            jco, jk = linear(jt)
+            jco = {a: c for a, c in jco.items() if c != 0}
             ra = st[0][2][0]
-            okval = ra[0] == "call" and ra[1] == GETRES and canon(strip_site(ra[2][0])) == canon(strip_site(cell))
-    run.inst("C08.K2", "sibling-compare", okidx and okval, whyc + " (must be current[i+j] vs cell + j*get_stride(resolution(cell)))", w)
-    # mismatch clears the flag and leaves the loop; no other early exit
-    early = [(x, s) for x, s in vl.exits if x != vl.item_switch and ft.blocks[s]["term"]["k"] != "unreachable"]
-    false_blocks = {p for p, v in falses}
-    ok_early = all(any(cfg.can_reach(fb, s) or fb == x or cfg.can_reach(x, fb) for fb in false_blocks) for x, s in early)
-    # precise: each early exit edge must pass a block assigning false before rejoining
-    def passes_false(x, s):
-        # every path from the compare block's mismatch edge to the flag switch goes through a false assignment
-        return any(cfg.dominates(fb, s) or fb == s or fb == x for fb in false_blocks)
-    run.inst("C08.K2", "mismatch-clears-flag", bool(early) and all(passes_false(x, s) for x, s in early),
-             "the only early exits of the sibling loop (%s) pass through a flag := false assignment" % early, w)
+            okval = jk == 1 and jco == {KSYM: 1} and ra[0] == "call" and ra[1] == GETRES and canon(strip_site(ra[2][0])) == canon(strip_site(cell))
+    run.inst("C08.K2", "sibling-compare", okidx and okval, whyc + " (must be current[i+j] vs cell + j*get_stride(resolution(cell)), j = 1 + k)", w)
+    if kind == "loop":
+        # mismatch clears the flag and leaves the loop; no other early exit
+        early = [(x, s_) for x, s_ in vl.exits if x != vl.item_switch and ft.blocks[s_]["term"]["k"] != "unreachable"]
+        false_blocks = {p_ for p_, v in falses}
+
+        def passes_false(x, s_):
+            # every path from the compare block's mismatch edge to the flag switch goes through a false assignment
+            return any(cfg.dominates(fb, s_) or fb == s_ or fb == x for fb in false_blocks)
+        run.inst("C08.K2", "mismatch-clears-flag", bool(early) and all(passes_false(x, s_) for x, s_ in early),
+                 "the only early exits of the sibling loop (%s) pass through a flag := false assignment" % early, w)
     # range end == E used for the cursor increment on the merge path
     inc = None
     for st_b in sorted(cfg.reach):
